@@ -8,4 +8,6 @@ MCLabels   == {"none", "nextprev", "nextprevious", "raquo", "onlynext"}
 MCHrefs    == {"rel", "abs", "absupper", "ftp", "offsite", "lookprefix", "looksuffix", "js", "mailto", "empty", "hash", "malformed", "schemerel", "relnodigit"}
 MCLabelKinds == {"num", "next", "prev"}
 QHrefs     == {"rel", "abs", "offsite", "lookprefix", "js", "empty", "hash", "malformed", "schemerel"}
+Q3Hrefs    == {"rel", "abs", "js", "empty", "ftp"}
+Q3Labels   == {"num", "next"}
 ====
